@@ -349,7 +349,8 @@ def attr_spec(draw):
     if k == "const":
         return ["const", draw(st.one_of(st.integers(-3, 3), st.booleans(), st.sampled_from(["s", "t u", ""]), st.floats(0, 1, allow_nan=False)))]
     if k == "template":
-        return ["const", draw(st.sampled_from(["n{idx}", "{hier_idx}", "{idx}/{hier_idx}", "x {hier_idx}: y"]))]
+        # ({idx} is a number: it takes a number's format spec)
+        return ["const", draw(st.sampled_from(["n{idx}", "{hier_idx}", "{idx}/{hier_idx}", "x {hier_idx}: y", "F-{idx:03}", "[{idx:>4}]", "{idx:02d}.{hier_idx:>8}"]))]
     if k == "range":
         lo = draw(st.integers(-3, 3))
         nv = draw(st.sampled_from([None, None, -99]))
@@ -365,7 +366,7 @@ def attr_spec(draw):
             mx = [mn[0] + 1, draw(st.integers(1, 12)), draw(st.integers(1, 28))]
         return ["date", mn, mx, draw(st.booleans()), p]
     if k == "value":
-        return ["value", draw(st.sampled_from([1, 0, "v", "v{idx}", False, 2.5])), p]
+        return ["value", draw(st.sampled_from([1, 0, "v", "v{idx}", False, 2.5, "v{idx:03}"])), p]
     if k == "sparse":
         return ["sparse", p]
     if k == "sample":
@@ -435,6 +436,14 @@ def hyp_cases(draw, tier):
             if not typed and not marker_in_types:
                 s["_t"] = ["const", p]
             relations[p] = dict([(p, s)] + list(relations[p].items())) if draw(st.booleans()) else dict(list(relations[p].items()) + [(p, s)])
+    if draw(st.sampled_from([0] * 7 + [1])):
+        # MANY siblings of the last type (it has no children of its own): 32..70 instances below each parent
+        last = tnames[-1]
+        hosts = [p for p, rel in relations.items() if last in rel]
+        if hosts:
+            p = draw(st.sampled_from(hosts))
+            n_big = draw(st.sampled_from([32, 33, 40, 64, 65, 70]))
+            relations[p][last][":count"] = n_big if draw(st.booleans()) else ["range", n_big, n_big + 3, 1.0]
     types = None
     if marker_in_types or draw(st.booleans()):
         types = {}
